@@ -16,3 +16,8 @@ fp("dask/array/ma.py", "filled", "_wrap_masked", "masked_equal", "masked_where",
    "_chunk_count", "count")
 fp("dask/array/reductions.py", "_cumsum_merge", "_cumprod_merge")
 fp("dask/array/backends.py", "_numel_masked")
+
+# C28
+fp("dask/array/random.py", "_spawn_bitgens", "_wrap_func", "_choice_validate_params", "_apply_random_func",
+   "_apply_random", "Generator.choice", "RandomState.choice", "default_rng")
+fp("dask/utils.py", "random_state_data")
